@@ -123,6 +123,14 @@ def gen(seed, tier):
             groups.append(list(range(i, i + k)))
             i += k
         w["groups"] = groups
+        # staged merging: a contiguous block of the jobs is merged first (stored as per-chunk data of the union of
+        # their chunks, NOT as the complete type), then that block and the remaining jobs are merged
+        w["stage"] = None
+        if len(groups) >= 2 and r.random() < 0.5:
+            i0 = r.randrange(len(groups))
+            i1 = r.randrange(i0, len(groups))
+            if (i0, i1) != (0, len(groups) - 1):
+                w["stage"] = [i0, i1]
         w["merge_rechunk"] = r.random() < 0.6
         w["new_compressor"] = r.choice([None, "zstd", "lz4"])
         for n in spec["nodes"]:
@@ -424,6 +432,16 @@ def execute_ctx(w, seed, strategy, forced, strict):
                 ctx.make(pr.run_id, target, chunk_number={src: g}, processor=w["cfg"]["processor"],
                          max_workers=w["cfg"]["max_workers"])
             res["stored_before_merge"] = ctx.is_stored(pr.run_id, target)
+            st = w.get("stage")
+            if st and st[1] < len(groups) and (st[0], st[1]) != (0, len(groups) - 1):
+                block = groups[st[0]:st[1] + 1]
+                if len(block) > 1:
+                    ctx.merge_per_chunk_storage(pr.run_id, target, src, chunk_number_group=block,
+                                                rechunk=w["merge_rechunk"], target_compressor=w["new_compressor"])
+                union = [c for g in block for c in g]
+                res["stored_after_stage"] = pr.context(extra={"forbid_creation_of": "*"}).is_stored(pr.run_id, target)
+                res["stage_union"] = union
+                groups = groups[:st[0]] + [union] + groups[st[1] + 1:]
             ctx.merge_per_chunk_storage(pr.run_id, target, src, chunk_number_group=groups,
                                         rechunk=w["merge_rechunk"], target_compressor=w["new_compressor"])
             fresh = pr.context(extra={"forbid_creation_of": "*"})
@@ -454,7 +472,11 @@ def execute_ctx(w, seed, strategy, forced, strict):
             if vio is None and res["alive"]:
                 vio = Violation("THREADS_ALIVE", "threads alive after loading", res["alive"])
         elif mode == "perchunk":
-            if not res["stored_after_merge"]:
+            if res.get("stored_after_stage"):
+                vio = Violation("PARTIAL_AS_COMPLETE", "a merge of only some per-chunk jobs is reported as the "
+                                                       "complete data type", f"chunks {res['stage_union']} of "
+                                                                             f"{res['n_src_chunks']}")
+            elif not res["stored_after_merge"]:
                 vio = Violation("MISSING", "merged per-chunk data is not reported as stored", "")
             elif not P.rows_equal(res["rows"], exp):
                 vio = Violation("WRONG_ROWS", "per-chunk jobs + merge differ from the directly made data",
@@ -465,6 +487,7 @@ def execute_ctx(w, seed, strategy, forced, strict):
         probes["pool_runs"] = int(w["cfg"]["max_workers"] > 1)
     if mode == "perchunk":
         probes["perchunk_groups"] = len(w["groups"])
+        probes["perchunk_staged_merge"] = int("stage_union" in res)
     if mode == "copy":
         probes["copy_to_all_frontends"] = int(w.get("target_id", 1) is None and w.get("n_targets", 1) > 1)
         probes["copy_fault_fired"] = int(bool(fs.fired))
